@@ -34,3 +34,4 @@ import RodbusModel.Props.C05
 #print axioms Rodbus.Cancel.deliveriesC_cut
 #print axioms Rodbus.Cancel.readerRunC_eq
 #print axioms Rodbus.Cancel.session_cancel_safe
+#print axioms Rodbus.Cancel.session_cancel_safe_with_write_fault
